@@ -83,6 +83,32 @@ def bounds_of(k):
     return {a: k[a] for a in ("N0", "MaxN", "NIter", "MaxObj", "WMax")}
 
 
+def tlc(ctx, *a, **kw):
+    """ctx.tlc, repeated once when the JVM was terminated from outside (SIGTERM/SIGKILL of a concurrent job)."""
+    try:
+        return ctx.tlc(*a, **kw)
+    except vlib.Infra as e:
+        if not any(x in str(e) for x in ("rc=143", "rc=137", "rc=-15", "rc=-9", "rc=130")) or "timeout" in str(e):
+            raise
+        ctx.log("TLC was terminated from outside (%s); running it again" % str(e)[:60])
+        if kw.get("label"):
+            kw["label"] = kw["label"] + "-again"
+        return ctx.tlc(*a, **kw)
+
+
+def validate(ctx, *a, **kw):
+    """vlib.validate_trace, repeated once when the JVM was terminated from outside."""
+    try:
+        return vlib.validate_trace(ctx, *a, **kw)
+    except vlib.Infra as e:
+        if "without a verdict" not in str(e):
+            raise
+        ctx.log("trace validation ended without a verdict; running it again")
+        if kw.get("label"):
+            kw["label"] = kw["label"] + "-again"
+        return vlib.validate_trace(ctx, *a, **kw)
+
+
 def run_replay(ctx, binary, cases, tag, operand="sparse", info=None, env=None):
     results = ctx.path("results-%s.ndjson" % tag)
     args = [binary, "replay", cases, results]
@@ -112,8 +138,11 @@ def model_sensitivity(ctx):
     for flag, invs in want.items():
         c = consts_of(K(3, 3, 1, 1, 1, CORE), False)
         c[flag] = "TRUE"
-        res = ctx.tlc("SparseVector", "SparseVector.cfg", workers=4, timeout=600, label="dev-" + flag, consts=c,
-                      allow_violation=True, count_stats=False)
+        for attempt in (1, 2):
+            res = tlc(ctx, "SparseVector", "SparseVector.cfg", workers=4, timeout=600, label="dev-%s-%d" % (flag, attempt),
+                      consts=c, allow_violation=True, count_stats=False)
+            if res.rc not in (143, 137, 130):      # else: terminated from outside, once more
+                break
         if not any(v in res.violated for v in invs):
             raise vlib.Infra("model sensitivity: %s=TRUE did not violate %s (violated=%s errors=%s)" % (
                 flag, invs, res.violated, res.errors[:2]))
@@ -135,7 +164,7 @@ def check_trace(ctx, binary, ntr, nops, n, seed, tag):
                 continue
             out.write(line)
             nev += 1
-    ok, bad, why = vlib.validate_trace(ctx, "SparseVectorTrace", "SparseVectorTrace.cfg", "sparsevec_trace.ndjson",
+    ok, bad, why = validate(ctx, "SparseVectorTrace", "SparseVectorTrace.cfg", "sparsevec_trace.ndjson",
                                        clean, timeout=2400, label="trace-" + tag)
     return clean, nev, ok, bad, why
 
@@ -171,7 +200,7 @@ def selftest(ctx, trace):
         with open(p, "w") as f:
             for e in ev:
                 f.write(json.dumps(e) + "\n")
-        ok, bad, _ = vlib.validate_trace(ctx, "SparseVectorTrace", "SparseVectorTrace.cfg", "sparsevec_trace.ndjson", p,
+        ok, bad, _ = validate(ctx, "SparseVectorTrace", "SparseVectorTrace.cfg", "sparsevec_trace.ndjson", p,
                                          label="selftest-" + name)
         if ok or bad != idx + 1:
             raise vlib.Infra("binding self-test %s failed: accepted=%s rejected_at=%s want=%s" % (name, ok, bad, idx + 1))
@@ -216,7 +245,7 @@ def run(ctx):
     case_files = {}
     for label, k in plan["emit"]:
         out = ctx.path("cases-%s.ndjson" % label)
-        res = ctx.tlc("SparseVector", "SparseVector.cfg", workers=W, timeout=5400, label=label, json_out=out,
+        res = tlc(ctx, "SparseVector", "SparseVector.cfg", workers=W, timeout=5400, label=label, json_out=out,
                       consts=consts_of(k, True))
         ctx.log("SparseVector %s: %d distinct states, %d transitions, %d cases, %.0fs" % (
             label, res.distinct, res.generated, res.json_count, res.wall))
@@ -259,7 +288,7 @@ def run(ctx):
         ctx.extra["dense_operand_deviations_observed"] = summ["mismatches"]
     # 2. larger configurations: refinement only
     for label, k in plan["check"]:
-        res = ctx.tlc("SparseVector", "SparseVector.cfg", workers=W, timeout=5400, label=label,
+        res = tlc(ctx, "SparseVector", "SparseVector.cfg", workers=W, timeout=5400, label=label,
                       consts=consts_of(k, False))
         ctx.log("SparseVector %s (refinement only): %d distinct states, %d transitions, %.0fs" % (
             label, res.distinct, res.generated, res.wall))
@@ -268,7 +297,7 @@ def run(ctx):
     # 3. deeper histories by simulation
     for label, k, num, depth in plan["sim"]:
         out = ctx.path("cases-%s.ndjson" % label)
-        res = ctx.tlc("SparseVector", "SparseVector.cfg", workers=4, timeout=3000, label=label, json_out=out,
+        res = tlc(ctx, "SparseVector", "SparseVector.cfg", workers=4, timeout=3000, label=label, json_out=out,
                       consts=consts_of(k, True, emit_at=depth), simulate="num=%d" % num, depth=depth + 1)
         if res.json_count == 0:
             raise vlib.Infra("simulation %s produced no case" % label)
